@@ -196,6 +196,10 @@ inductive Ctx where
   /-- the automatic dereference of a pointer operand in `p.M` / `e.M` through an embedded `*T`: a temporary that
       denotes the pointee itself (makeReceiver re-types the pointer as the pointee: the struct/array pointer IS the object) -/
   | deref
+  /-- a conversion `T(x)` / `(T)(x)` between identical types: `translateConversion` returns the operand's translation
+      (expressions.go: `if types.Identical(exprType, desiredType) { return fc.translateExpr(expr) }`), i.e. the SAME object;
+      conversions between distinct types with the same underlying array/struct type `$clone` (a fresh object, harmless) -/
+  | conv
 deriving DecidableEq, Repr
 
 inductive CtxKind where
@@ -208,7 +212,7 @@ def Ctx.kind : Ctx → CtxKind
   | .assign | .elemStore | .fieldStore | .ptrStore => .inPlace
   | .define | .arg | .rangeValue | .rangeOperand | .send | .mapStore | .litElem | .box | .recvValue | .methodValue
   | .boundCall | .ifaceCall | .deferRecv | .goRecv => .newLocation
-  | .result | .recv | .mapLoad | .unbox | .deref => .temporary
+  | .result | .recv | .mapLoad | .unbox | .deref | .conv => .temporary
 
 /-- Does the translator emit `$clone(…)` when a value of array/struct type flows through the context?
     Transcribed from /repo/compiler (anchors = file:line of the emission, or of the place where none is emitted). -/
@@ -235,6 +239,7 @@ def cloneAt : Ctx → Bool
   -- element, map value): makeReceiver `translateImplicitConversionWithCloning(x, methodsRecvType)`.
   | .deferRecv => true      -- expressions.go makeReceiver (via delegatedCall → translateExpr(expr.Fun) → `$methodVal(makeReceiver(e), …)`)
   | .goRecv => true         -- same path
+  | .conv => false          -- expressions.go translateConversion, identical types: no object is created
   | .deref => false         -- makeReceiver `x = fc.setType(x, methodsRecvType)`: no object is created
   | .result => false        -- statements.go:786  translateResults → translateImplicitConversion
   | .recv => false          -- expressions.go `$recv` result `[0]`
